@@ -119,22 +119,9 @@ class WrapHarness(Harness):
                 chars += [(32, 1)] * I.choose(mg + 1, 'trail')
             return Txt(chars)
         if g == 'tmpl':
-            # sentence template: concrete characters with a few symbolic positions.  '?' is a symbolic 1-byte
-            # character (the whole class 0..0x7f except ESC, so it may turn into a space, '-', CR or LF and change
-            # the word / line structure), '\u00bf' (inverted '?') a symbolic 2-byte character, '\u203d' a symbolic
-            # 3-byte character.  Reaches paragraph shapes (5-8 words, 3-6 output lines at the widths that matter)
-            # far beyond the flat N bound while width and indents stay fully symbolic.
-            chars = []
-            for k, ch in enumerate(cfg['tmpl']):
-                if ch == '?':
-                    chars.append((I.sym_char('t%d' % k, 0, 0x7f, exclude=(ESC,)), 1))
-                elif ch == '\u00bf':
-                    chars.append((I.sym_char('t%d' % k, *CLASS_RANGE[2]), 2))
-                elif ch == '\u203d':
-                    chars.append((I.sym_char('t%d' % k, *CLASS_RANGE[3]), 3))
-                else:
-                    chars.append((ord(ch), utf8len(ord(ch))))
-            return Txt(chars)
+            # sentence template (harness.gen_tmpl): reaches paragraph shapes (5-8 words, 3-6 output lines at the
+            # widths that matter) far beyond the flat N bound while width and indents stay fully symbolic
+            return gen_tmpl(I, cfg['tmpl'])
         if g == 'symcls':
             return gen_text(I, n, 'c', tuple(cfg['classes']), lenvar=cfg.get('lenvar', True))
         if g == 'alpha':
